@@ -284,6 +284,20 @@ def corpus(thorough=False):
                 Scenario("tree-ops/" + backend, s_tree_ops, backend=backend),
                 Scenario("list-mlsd/" + backend, s_list_mlsd, backend=backend),
             ]
+    if thorough:
+        # every script again under two more iteration orders of the server's task sets
+        import copy
+
+        more = []
+        for s0 in sc:
+            if "~order" in s0.name:
+                continue
+            for salt in (1, 5):
+                s1 = copy.copy(s0)
+                s1.name = "%s~order%d" % (s0.name, salt)
+                s1.task_salt = salt
+                more.append(s1)
+        sc += more
     return sc
 
 
